@@ -163,7 +163,7 @@ def gen_project(rng, size="small", features=None, focus=None):
         if e: c["env"] = e
         if pick(rng, 0.2):
             c["rules"] = [{"name": "CC", "in": "c", "out": "o", "cmd": "cc-" + n + " ${CFLAGS} -c ${in} -o ${out}"}]
-        if pick(rng, 0.1):
+        if pick(rng, 0.3 if focus == "env" else 0.1):
             c["var_options"] = {rng.choice(["CFLAGS", "LIBS"]): {"prefix": "-q"}}
         if "rules" not in c and pick(rng, 0.12):
             c["rules"] = [dict(contexts[0]["rules"][0], always=True)]     # the default CC rule, but always rebuilt
